@@ -26,6 +26,8 @@ def main():
     os.makedirs(outdir, exist_ok=True)
     corpus = os.path.join(outdir, "corpus")
     os.makedirs(corpus, exist_ok=True)
+    import logging
+    logging.disable(logging.CRITICAL)      # miasmX logs an error line for every undecodable byte
     import atheris
     with atheris.instrument_imports(include=["miasmx"], enable_loader_override=False):
         import miasmx.arch.ia32_arch       # noqa: F401
